@@ -17,7 +17,6 @@
 package main
 
 import (
-	"bytes"
 	"encoding/gob"
 	"encoding/json"
 	"fmt"
@@ -721,7 +720,7 @@ type Point struct {
 
 // straceScript writes a wrapper that runs plz under strace (log at logPath) and returns its path.
 func straceScript(dir, realPlz, logPath string, pt *Point) string {
-	args := []string{"exec", "strace", "-f", "-qq", "-y", "-s", "0", "-e", "signal=none", "-o", logPath}
+	args := []string{"exec", "strace", "-f", "-qq", "-y", "-e", "signal=none", "-o", logPath}
 	switch {
 	case pt != nil && pt.Mode == "path":
 		args = append(args, "-P", pt.Path, "-e", "trace="+pTrace, "-e", fmt.Sprintf("inject=%s:signal=SIGKILL:when=%d", pt.Syscall, pt.When))
@@ -1156,6 +1155,7 @@ func runRepo(r *lib.Rng, base string, idx int, spec *e2e.Spec, jobs []crashJob, 
 			// the known window: the killed build started although the records were current, and was killed while
 			// the metadata file was empty
 			window := ""
+			windowSet := map[string]bool{}
 			for _, ti := range tis {
 				cur := curRec(ti, ref.Obs[ti.Label])
 				sk := last.after[ti.Label]
@@ -1170,9 +1170,9 @@ func runRepo(r *lib.Rng, base string, idx int, spec *e2e.Spec, jobs []crashJob, 
 					}
 				}
 				if allCur {
-					window = ti.Label
-					if ti.Mod {
-						break
+					windowSet[ti.Label] = true
+					if window == "" || ti.Mod {
+						window = ti.Label
 					}
 				}
 			}
@@ -1193,7 +1193,7 @@ func runRepo(r *lib.Rng, base string, idx int, spec *e2e.Spec, jobs []crashJob, 
 			for _, ti := range tis {
 				f, cl := final[ti.Label], ref.Obs[ti.Label]
 				if f.Md == nil || !f.Md.Full {
-					if window == ti.Label || (window != "" && f.Md != nil) {
+					if windowSet[ti.Label] {
 						c.Fail("empty-metadata-trusted-after-killed-rebuild-of-current-target", fmt.Sprintf("%s: the build after the kill reports the target unchanged although its metadata file is empty (scenario %s)", ti.Label, scen), js)
 					} else {
 						c.Fail("metadata-incomplete-after-recovery", fmt.Sprintf("%s: metadata file missing or undecodable after the recovery build", ti.Label), js)
@@ -1324,10 +1324,17 @@ func partP(c *lib.Ctx, base string) {
 			}
 			// two kills in a row: first when the record reaches the first output, then in the metadata rewrite of the next build
 			for k := 0; k < nDouble; k++ {
-				first := filepath.Join(mod.OutDir, mod.all()[0])
-				p1 := Point{Mode: "path", Path: filepath.Join(mod.OutDir, mod.all()[len(mod.all())-1]), Syscall: "lsetxattr", When: 2}
+				// the output right after the (first) declared one in sorted order: killed on entry to ITS record write
+				all := mod.all()
+				at := len(all) - 1
+				for i, n := range all {
+					if n == mod.Decl[0] && i+1 < len(all) {
+						at = i + 1
+					}
+				}
+				p1 := Point{Mode: "path", Path: filepath.Join(mod.OutDir, all[at]), Syscall: "lsetxattr", When: 2}
 				if k%2 == 1 {
-					p1 = Point{Mode: "path", Path: first, Syscall: "lsetxattr", When: 2}
+					p1 = Point{Mode: "path", Path: filepath.Join(mod.OutDir, all[len(all)-1]), Syscall: "lsetxattr", When: 2}
 				}
 				p2 := Point{Mode: "path", Path: mod.mdPath(), Syscall: "write", When: 1}
 				jobs = append(jobs, crashJob{Scenario: "double", Point: p1, Point2: &p2})
@@ -1385,6 +1392,5 @@ func main() {
 		defer os.RemoveAll(base)
 		partW(c, base)
 		partP(c, base)
-		_ = bytes.MinRead
 	})
 }
